@@ -14,9 +14,12 @@ PROOF_FILE = "C15"
 LEVEL = "proof"
 RULE = ("generated POM lineages (project, up to 4 ancestors, up to 3 imported BOMs with their own parents; properties chained "
         "and overriding, project.* / pom.* / parent.* built-ins, import scope, duplicate declarations, profiles active by default, "
-        "by JDK value or range, by OS, exclusions, scopes, optional, type, classifier), run through the documented pipeline on the "
-        "Go side (values built directly and, separately, decoded from XML), through the extracted model and through the extracted "
-        "Maven specification; observables: ordered dependencies and managed dependencies as (group, artifact, version, type|jar, "
+        "by JDK value or range, by OS, exclusions, scopes, optional, type, classifier; properties defined with an EMPTY value and "
+        "referenced from version, classifier, type, scope, groupId and exclusions, overriding inherited values in children and "
+        "profiles), each written as XML in varying spellings (empty / self-closing / white-space-only elements, padding, CDATA, "
+        "case of booleans) and run through the package's decoder and the documented pipeline on the Go side; the decoded records "
+        "themselves are an observable (kind pomdecode); the same projects built directly as values, the extracted model and the "
+        "extracted Maven specification; observables: ordered dependencies and managed dependencies as (group, artifact, version, type|jar, "
         "classifier, scope with the empty scope of a dependency read as compile, optional as a boolean, exclusions); "
         "plus property tables (cycles, self reference, nested and unterminated placeholders, chains 1000 deep) under a watchdog. "
         "A lineage is non-trivial when the specification accepts it, it has at least one other POM and yields a dependency")
@@ -40,6 +43,9 @@ ASSUMPTIONS = [
     "are fetchable poms and fewer than MaxImports); the composition over whole lineages (interpolation sits between merge and "
     "dedupe in the Go code, Maven selects on the written text) is decided by the direct oracle Go vs specification, not a theorem",
     "OS family is a single value of the settings (Maven derives several families from os.name)",
+    "where Maven's outcome rests on null versus empty (a classifier or scope written but interpolating to the empty string "
+    "meeting the same identity without it) the specification makes no claim (reason 11 / 2); two such lineages are recorded "
+    "in known/C15.jsonl as outside_subset with what Maven 3.8.7 and deps.dev return",
 ]
 
 MANIFEST = dict(
@@ -187,7 +193,7 @@ def oracle(ctx, cases, tab, impl, model, spec, label):
             ctx.nontriv(a)
         if ps == pb:
             continue
-        if tr and b == m:
+        if tr and b == m:      # b: from the XML texts, m: the model (which the value-built run is tied to)
             for t in sorted(tr):
                 ctx.known_hits[TRIGGER_FINDING[t]] = ctx.known_hits.get(TRIGGER_FINDING[t], 0) + 1
             continue
@@ -231,7 +237,7 @@ def shrink(ctx, case, rounds=60):
     the specification's (which must still accept the lineage)"""
     def bad(cands):
         args = [sx(c) for c in cands]
-        impl = ctx.impl("pom", args, shards=1)
+        impl = ctx.impl("pomxml", args, shards=1)
         spec = ctx.model("pomspec", args, shards=1)
         res = []
         for b, s_ in zip(impl, spec):
@@ -398,11 +404,36 @@ def run_all(ctx):
     impl, model = correspond_safe(ctx, "pom", args)
     implx = impl_safe(ctx, "pomxml", args)
     spec = ctx.model("pomspec", args)
+    # The property starts at the pom.xml: the Go result that is held against Maven's is the one computed from
+    # the XML texts through the package's own decoder (the XML is written in varying spellings: empty and
+    # self-closing elements, white space, CDATA).  The same projects built directly as values tie the model.
+    st = oracle(ctx, cases, tab, implx, model, spec, "lineage")
+    glue = 0
     for a, b, bx in zip(args, impl, implx):
         if b != bx:
-            ctx.violation("decoding the POMs from XML gives another effective POM than the same projects built as values",
-                          {"kind": "pom", "case": a}, observed=bx, required=b)
-    st = oracle(ctx, cases, tab, impl, model, spec, "lineage")
+            glue += 1
+            if glue <= 20:
+                ctx.violation("decoding the POMs from XML gives another effective POM than the same projects built as values",
+                              {"kind": "pomxml", "case": a}, observed=bx, required=b)
+    # what the decoder delivers is itself an observable: every text trimmed, a property written without text
+    # present with the empty value, booleans case-folded
+    dimpl, dmodel = correspond_safe(ctx, "pomdecode", args)
+    nd = 0
+    for c, a, x, y in zip(cases, args, dimpl, dmodel):
+        if x == y:
+            continue
+        nd += 1
+        if nd > 10:
+            continue
+        got, want = parse_sx(x), parse_sx(y)
+        texts = parse_sx(ctx.impl("pomrender", [a], shards=1)[0])
+        j = 0
+        if got[0] == b"ok":
+            j = next((i for i, (u, v) in enumerate(zip(got[1], want[1])) if u != v), 0)
+        ctx.violation("decoding a pom.xml does not give the project the file describes (texts trimmed, a property written "
+                      "without text defined with the empty value)",
+                      {"kind": "pomdecode", "pom_xml": texts[j].decode("utf-8", "replace"), "case": a},
+                      observed=sx(got[1][j]) if got[0] == b"ok" else x, required=sx(want[1][j]))
     ctx.extra["oracle"] = dict(st)
     # smallest failing lineage first, minimised
     pv = [v for v in ctx.violations if isinstance(v["input"], dict) and v["input"].get("kind") == "pom" and "required" in v and v["required"]]
@@ -414,7 +445,8 @@ def run_all(ctx):
             small = shrink(ctx, parse_sx(first["input"]["case"]))
             a = sx(small)
             first["input"]["minimised_case"] = a
-            first["input"]["minimised_go"] = ctx.impl("pom", [a], shards=1)[0]
+            first["input"]["minimised_go"] = ctx.impl("pomxml", [a], shards=1)[0]
+            first["input"]["minimised_pom_xml"] = [t.decode("utf-8", "replace") for t in parse_sx(ctx.impl("pomrender", [a], shards=1)[0])]
             first["input"]["minimised_maven_specification"] = ctx.model("pomspec", [a], shards=1)[0]
         except Exception as e:      # the unminimised input is still a valid failing input
             first["input"]["minimised_case"] = "shrinking failed: %r" % (e,)
